@@ -50,7 +50,8 @@ T_Seg ==
         LET row == {q \in Probes : IF t[2] = 0 THEN J(q) = t[3] /\ I(q) \in t[4]..t[5]
                                                 ELSE I(q) = t[3] /\ J(q) \in t[4]..t[5]}
         IN  \A c \in Cells :
-                SegCrosses(c, t[2], t[3], t[4], t[5]) <=> \E q \in row : Prefix(c, q)
+                /\ SegCrosses(c, t[2], t[3], t[4], t[5]) <=> \E q \in row : Prefix(c, q)
+                /\ SegCrosses(c, t[2], t[3], t[4], t[5]) => GrazeTouches(c, t[2], t[3], t[4], t[5])
 
 \* ---- emission -----------------------------------------------------------------------
 CellLess(a, b) == a[1] < b[1] \/ (a[1] = b[1] /\ a[2] < b[2])
@@ -67,7 +68,8 @@ EmitCell ==
                              touchcells |-> SetToSortSeq({d \in Cells : CellsTouch(C, d)}, CellLess)])>>)
 EmitSeg ==
     PrintT(<<"CASE", ToJson([op |-> "seg", dir |-> t[2], line |-> t[3], a |-> t[4], b |-> t[5],
-                             cross |-> SetToSortSeq({c \in Cells : SegCrosses(c, t[2], t[3], t[4], t[5])}, CellLess)])>>)
+                             cross |-> SetToSortSeq({c \in Cells : SegCrosses(c, t[2], t[3], t[4], t[5])}, CellLess),
+                             graze |-> SetToSortSeq({c \in Cells : GrazeTouches(c, t[2], t[3], t[4], t[5])}, CellLess)])>>)
 EmitPair ==
     LET c == <<t[2], t[3]>>
         w == P4(Lp - t[2])
